@@ -5,3 +5,5 @@ mod value;
 
 pub(crate) use stream::transcode;
 pub(crate) use value::Value;
+#[cfg(xt_verif)]
+pub(crate) use stream::Error;
